@@ -429,6 +429,25 @@ def corpus(tier):
                 except Exception:  # noqa: BLE001
                     continue
                 items.append((f"consttable:{TP.DataType.Name(dt_)}{list(shape_)}:{form_}", m_.SerializeToString(), [("x", int(TP.FLOAT), (2,))]))
+    # a small (inlinable) Constant that is itself a GRAPH OUTPUT, alone and beside a use; float ATTRIBUTES (not tensors) with special values
+    for cval_, also_used in ((2.0, True), (2.0, False), (-0.0, True)):
+        cn_ = oh.make_node("Constant", [], ["c"], value=nh_.from_array(np.array(cval_, dtype=np.float32), "c_v"))
+        nodes_ = [cn_, oh.make_node("Mul", ["x", "c"], ["y"])] if also_used else [cn_, oh.make_node("Neg", ["x"], ["y"])]
+        g_ = oh.make_graph(nodes_, "constout", [oh.make_tensor_value_info("x", TP.FLOAT, [2])],
+                           [oh.make_tensor_value_info("y", TP.FLOAT, [2]), oh.make_tensor_value_info("c", TP.FLOAT, [])])
+        m_ = oh.make_model(g_, opset_imports=[oh.make_opsetid("", 18)], ir_version=9)
+        items.append((f"constout:c={cval_} used={also_used}", m_.SerializeToString(), [("x", int(TP.FLOAT), (2,))]))
+    for tag_, kw_ in (("value_float=inf", {"value_float": float("inf")}), ("value_float=-inf", {"value_float": float("-inf")}),
+                      ("value_floats=[1,inf]", {"value_floats": [1.0, float("inf")]}), ("value_float=1e-05", {"value_float": 1e-5}),
+                      ("value_float=nan", {"value_float": float("nan")})):
+        nodes_ = [oh.make_node("Constant", [], ["k"], **kw_), oh.make_node("Min", ["x", "k"], ["y"]) if "floats" not in tag_ else oh.make_node("Min", ["x", "k"], ["y"])]
+        g_ = oh.make_graph(nodes_, "floatattr", [oh.make_tensor_value_info("x", TP.FLOAT, [2])], [oh.make_tensor_value_info("y", TP.FLOAT, [2])])
+        m_ = oh.make_model(g_, opset_imports=[oh.make_opsetid("", 18)], ir_version=9)
+        try:
+            onnx.checker.check_model(m_, full_check=True)
+            items.append((f"floatattr:{tag_}", m_.SerializeToString(), [("x", int(TP.FLOAT), (2,))]))
+        except Exception:  # noqa: BLE001
+            pass
     # a STRING table whose elements contain the letters of the special float values
     stbl = nh_.from_array(np.array(["info", "banana", "nan", "x inf y"], dtype=object), "stbl")
     for form_ in ("init", "node"):
